@@ -20,6 +20,12 @@ def strToBytes : Str → List UInt8
   | [] => []
   | c :: cs => utf8Encode c ++ strToBytes cs
 
+def hexDigitChar (n : Nat) : Char := if n < 10 then Char.ofNat (48 + n) else Char.ofNat (87 + n)
+/-- `x` followed by the hex digits of the UTF-8 encoding (wire format of strings) -/
+def hexOfStr (s : Str) : String :=
+  String.ofList ('x' :: (strToBytes s).foldr (fun b acc =>
+    hexDigitChar (b.toNat / 16) :: hexDigitChar (b.toNat % 16) :: acc) [])
+
 def isCont (b : UInt8) : Bool := 0x80 ≤ b && b ≤ 0xBF
 def replacement : Char := Char.ofNat 0xFFFD
 
